@@ -301,13 +301,14 @@ fn soc_update_scaling<const P: u16, const D: usize>(check_sparse: bool) {
         assert!(dblk[0] == e2 * sdd && dblk[1] == e2, "sparse_diagonal_block_is_eta2_times_diag(d,1,..)");
     }
     kani::cover!(c.w[1].0 != 0 || c.w[2].0 != 0, "scaling point with a nonzero tail");
-    if check_sparse {
-        // over GF(7) the only scaling points at which every nested root of the sparse path exists have v = 0
-        // (the harness is then blind to the coefficient of v): the informative instances are the ones where
-        // this witness is reachable
-        let sd = c.sparse_data.as_ref().unwrap();
-        kani::cover!(P == 7 || sd.v[1].0 != 0 || sd.v[2].0 != 0, "sparse expansion with a nonzero v (required except over GF(7))");
-    }
+    // over GF(7) the only scaling points at which every nested root of the sparse path exists have v = 0 (the
+    // harness is then blind to the coefficient of v): the informative instances are the ones where this
+    // witness is reachable
+    let v_nonzero = match c.sparse_data.as_ref() {
+        Some(sd) if check_sparse => sd.v[1].0 != 0 || sd.v[2].0 != 0,
+        _ => true,
+    };
+    kani::cover!(P == 7 || v_nonzero, "sparse expansion with a nonzero v (required except over GF(7))");
     kani::cover!(s[1].0 != 0 && z[2].0 != 0 && c.w[1].0 != 0, "opt: interior points with nonzero tails");
 }
 
